@@ -1988,4 +1988,97 @@ theorem allconcat_eq [Inhabited α] (ty : RefType) (hty : ty.id = true) (ldim : 
   simp only [Int.zero_add] at hsrc
   simp [hsrc, List.map_map, Function.comp_def]
 
+/-! ### exact characterisation of the guards of `ref_mpi_alltoallv` -/
+
+/-- a value outside the `int` range -/
+def OutOfInt (v : Int) : Prop := v > INT_MAX ∨ v < INT_MIN
+
+theorem intMultipliable_false_iff (a b : Int) : intMultipliable a b = false ↔ OutOfInt (a * b) := by
+  unfold intMultipliable OutOfInt
+  by_cases h1 : a * b ≤ INT_MAX <;> by_cases h2 : INT_MIN ≤ a * b <;> simp [h1, h2] <;> omega
+
+theorem intAddable_false_iff (a b : Int) : intAddable a b = false ↔ OutOfInt (a + b) := by
+  unfold intAddable OutOfInt
+  by_cases h1 : a + b ≤ INT_MAX <;> by_cases h2 : INT_MIN ≤ a + b <;> simp [h1, h2] <;> omega
+
+/-- the size loop returns `REF_FAILURE` exactly when a size is negative or `n * size` leaves the `int` range -/
+theorem sizeN_eq_none_iff (n : Int) (xs : List Int) :
+    sizeN n xs = none ↔ ∃ x ∈ xs, x < 0 ∨ OutOfInt (n * x) := by
+  induction xs with
+  | nil => simp [sizeN]
+  | cons x xs ih =>
+    unfold sizeN
+    by_cases hx : 0 ≤ x
+    · cases hm : intMultipliable n x with
+      | true =>
+        have hnot : ¬ OutOfInt (n * x) := by
+          intro h; rw [← intMultipliable_false_iff] at h; rw [hm] at h; cases h
+        simp only [hx, decide_true, Bool.and_self, if_true, Option.map_eq_none_iff, ih, List.mem_cons,
+          exists_eq_or_imp]
+        constructor
+        · intro h; exact Or.inr h
+        · rintro (h | h)
+          · rcases h with h | h
+            · omega
+            · exact absurd h hnot
+          · exact h
+      | false =>
+        have := (intMultipliable_false_iff n x).mp hm
+        simp only [hx, decide_true, Bool.and_false, Bool.false_eq_true, if_false, List.mem_cons, exists_eq_or_imp,
+          true_iff]
+        exact Or.inl (Or.inr this)
+    · simp only [hx, decide_false, Bool.false_and, Bool.false_eq_true, if_false, List.mem_cons, exists_eq_or_imp,
+        true_iff]
+      exact Or.inl (Or.inl (by omega))
+
+/-- the displacement loop returns `REF_FAILURE` exactly when one of the partial sums it forms
+    (`disp[k+1] = acc + size[0] + … + size[k]`, `k + 1 < np`: the last size is never added) leaves the `int` range -/
+theorem dispGuard_eq_none_iff (acc : Int) (xs : List Int) :
+    dispGuard acc xs = none ↔ ∃ k, k + 1 < xs.length ∧ OutOfInt (acc + (xs.take (k + 1)).sum) := by
+  induction xs generalizing acc with
+  | nil => simp [dispGuard]
+  | cons x xs ih =>
+    cases xs with
+    | nil => simp [dispGuard]
+    | cons y ys =>
+      unfold dispGuard
+      cases ha : intAddable acc x with
+      | false =>
+        have := (intAddable_false_iff acc x).mp ha
+        simp only [Bool.false_eq_true, if_false, true_iff]
+        exact ⟨0, by simp, by simpa using this⟩
+      | true =>
+        have hnot : ¬ OutOfInt (acc + x) := by
+          intro h; rw [← intAddable_false_iff] at h; rw [ha] at h; cases h
+        simp only [if_true, Option.map_eq_none_iff, ih (acc + x)]
+        constructor
+        · rintro ⟨k, hk, ho⟩
+          refine ⟨k + 1, by simpa using hk, ?_⟩
+          simp only [List.take_succ_cons, List.sum_cons] at ho ⊢
+          rw [← Int.add_assoc]; exact ho
+        · rintro ⟨k, hk, ho⟩
+          cases k with
+          | zero =>
+            simp only [Nat.zero_add, List.take_succ_cons, List.take_zero, List.sum_cons, List.sum_nil,
+              Int.add_zero] at ho
+            exact absurd ho hnot
+          | succ k =>
+            refine ⟨k, by simpa using hk, ?_⟩
+            simp only [List.take_succ_cons, List.sum_cons] at ho ⊢
+            rw [Int.add_assoc]; exact ho
+
+/-- the tag scheme `n * receiver + sender` of the native variant names every (receiver, sender) pair once -/
+theorem native_tag_injective (np r s r' s' : Nat) (hs : s < np) (hs' : s' < np)
+    (h : np * r + s = np * r' + s') : r = r' ∧ s = s' := by
+  have hpos : 0 < np := by omega
+  have h1 : (np * r + s) / np = r := by
+    rw [Nat.mul_add_div hpos, Nat.div_eq_of_lt hs]; rfl
+  have h2 : (np * r' + s') / np = r' := by
+    rw [Nat.mul_add_div hpos, Nat.div_eq_of_lt hs']; rfl
+  have h3 : (np * r + s) % np = s := by rw [Nat.mul_add_mod, Nat.mod_eq_of_lt hs]
+  have h4 : (np * r' + s') % np = s' := by rw [Nat.mul_add_mod, Nat.mod_eq_of_lt hs']
+  constructor
+  · rw [← h1, ← h2, h]
+  · rw [← h3, ← h4, h]
+
 end Refine.Lemmas.Comm
